@@ -383,7 +383,7 @@ theorem encodeSpecialOpd_failOnly (opt : Nat) (s : Instr) (m i : Nat) : FailOnly
   split
   · exact mapOk_failOnly _ (fun s => setRex s (s.opd m) noRegister) (getReg_failOnly _ _ _ _)
   · split
-    · exact mapOk_failOnly _ (fun s => setRdOffsetO s m) (getReg_failOnly _ _ _ _)
+    · exact mapOk_failOnly _ (fun s => if s.memDisp then setRdOffsetMem s m else setRdOffsetReg s m) (getReg_failOnly _ _ _ _)
     · split
       · exact FailOnly.ok _
       · exact FailOnly.ok _
